@@ -1,6 +1,6 @@
 SPECIFICATION Spec
 CONSTANTS
-  MaxN = 4
+  MaxN = 5
   MaxT = 3
   PageLimit = 3
   Steps <- Steps123
